@@ -105,6 +105,14 @@ Theorem C11_spec_dollar_rule : forall f t,
 Proof. intros f t; split; [exact (dollar_rule f t) | exact (dollar_rule_only f t)]. Qed.
 Print Assumptions C11_spec_dollar_rule.
 
+(* the filters these theorems quantify over (valid_filter) are exactly the ones subscribe() accepts
+   (C19's independently written grammar spec_filter_ok), up to the 65535-byte limit of the wire format *)
+From PahoV Require Import Codec.ValidateSpec Matcher.FilterGrammarTie.
+Theorem C11_valid_filter_is_the_subscribe_grammar : forall s,
+  spec_filter_ok s = valid_filter s && (Z.of_nat (List.length s) <=? 65535).
+Proof. exact filter_grammars_agree. Qed.
+Print Assumptions C11_valid_filter_is_the_subscribe_grammar.
+
 (* ---------------------------------------------------------------- non-vacuity and spec sanity *)
 Definition b (s : string) : list Z := map (fun a => Z.of_N (N_of_ascii a)) (list_ascii_of_string s).
 Definition sm (f t : string) : bool := spec_match_str (b f) (b t).
